@@ -4,7 +4,7 @@ cd "$(dirname "$(readlink -f "$0")")/.."
 tier=${1:-quick}; shift
 seeds=${@:-1}
 for seed in $seeds; do
-  for id in $(python3 -c "import json;print(' '.join(c['property_id'] for c in json.load(open('MANIFEST.json'))['checks']))"); do
+  for id in ${SWEEP_IDS:-$(python3 -c "import json;print(' '.join(c['property_id'] for c in json.load(open('MANIFEST.json'))['checks']))")}; do
     start=$(date +%s)
     out=$(VERIF_SEED=$seed ${SWEEP_ENV:-} ./check $id $tier 2>&1); rc=$?
     echo "seed=$seed $id rc=$rc $(( $(date +%s) - start ))s :: $(echo "$out" | grep -E 'VIOLATION|INCONCLUSIVE|  id=' | head -3 | tr '\n' ' ' | cut -c1-300)"
